@@ -14,6 +14,9 @@ if __name__ == "__main__":
         for short in verify:
             if filt in short:
                 print(eng.verify(short))
+                if module.contracts[short].get("relational"):
+                    from pvc import relational
+                    obls += relational.pair_obligations(eng, short, module.contracts[short]["relational"])
         obls += eng.obls
         for n in eng.notes: print("   note", n)
     if dump:
